@@ -214,3 +214,8 @@ pub fn verif_poll_rws(sig_full: bool, sig_drop: bool, fut_ready: bool) -> String
     };
     format!("{}|polls={}", kind, polls.load(std::sync::atomic::Ordering::SeqCst))
 }
+
+/// put a (harmless) supervision event into the actor's own supervision port
+pub fn verif_send_supervisor_evt(cell: &ActorCell) {
+    let _ = cell.send_supervisor_evt(SupervisionEvent::ProcessGroupChanged(crate::pg::GroupChangeMessage::Leave("s".into(), "g".into(), vec![])));
+}
